@@ -310,6 +310,20 @@ def r09_5(run, model):
     g = model.fn("compile_go", GOC)
     gos = [st for st in S.find(g.body, "Struct") if st["segs"][-1] == "Go" and "Stmt" in st["segs"]]
     run.ob("R09.5", "compile_go|one Stmt::Go", len(gos) == 1, site(GOC, g.node["sp"]), f"{len(gos)} Stmt::Go constructions")
+    # `go` is never compiled as a value: the expression compiler refuses it, so every position has to go through compile_go
+    ce = model.fn("compile_cexpr", GOC)
+    mm = big_match(ce, "CExpr")
+    go_arms = arms_by_variant(mm, "CExpr").get("EGo", []) if mm else []
+    if not go_arms:
+        raise AnalysisIncomplete("compile_cexpr: no arm for EGo")
+    for a in go_arms:
+        div = a["body"]["k"] == "Macro" and a["body"]["name"] in ("panic", "unreachable") or \
+            (a["body"]["k"] == "Block" and len(a["body"]["stmts"]) == 1 and any(x["k"] == "Macro" and x["name"] in ("panic", "unreachable") for x in S.walk(a["body"])))
+        run.ob("R09.5", "compile_cexpr|`go` is not an expression", div, site(GOC, a["sp"]),
+               "the EGo arm of the expression compiler diverges" if div else "the EGo arm returns a Go expression: `go e` in value position becomes a synchronous call",
+               witness="fn spawn() -> unit { go || work() } (go as the tail expression): emitted `ret = apply(env)` instead of `go apply(env)`; no goroutine starts")
+    sites_go = sum(1 for f_ in model.fns(GOC) if f_.body is not None and f_.name != "compile_go" for _ in S.calls(f_.body, "compile_go"))
+    run.ob("R09.5", "go/compile.rs|statement positions call compile_go", sites_go >= 2, site(GOC, None), f"{sites_go} call sites of compile_go (effect position and assignment position)")
     d = model.fn("dce_block_with_live", DCE)
     m = big_match(d, "Stmt")
     arms = arms_by_variant(m, "Stmt").get("Go", []) if m else []
